@@ -125,6 +125,9 @@ impl<T: Flat + Walk, L: Flat + Length> Walk for FlatVec<T, L> {
         } else {
             out.push_str("V[");
         }
+        if self.len() > self.capacity() {
+            out.push_str("!OVER");
+        }
         for (i, x) in self.as_slice().iter().enumerate() {
             if i > 0 {
                 out.push(' ');
@@ -136,6 +139,9 @@ impl<T: Flat + Walk, L: Flat + Length> Walk for FlatVec<T, L> {
 }
 impl<L: Flat + Length> Walk for FlatString<L> {
     fn walk(&self, out: &mut String, caps: bool) {
+        if self.len() > self.capacity() {
+            out.push_str("!OVER");
+        }
         if caps {
             out.push_str(&format!("S{}:", self.capacity()));
         } else {
